@@ -8,7 +8,10 @@ FIELDS = ["path", "mtime", "size", "volume_id", "type", "format", "arch", "disc_
           "bootable", "subvariant", "unified", "additional_variants"]
 PATHS = [{"p1": "Server/x86_64/iso/z-boot.iso", "p2": "Server/x86_64/iso/a-dvd.iso", "p3": "unified/m.iso", "p4": "Client/b.iso",
           "p5": "Server/x86_64/iso/a-dvd2.iso", "p6": "0/first.iso", "p8": "x/p8.iso", "p9": "Server/x86_64/iso/twin.iso", "p10": "Server/x86_64/os/images/z-boot.iso", "p11": "unified/n.iso"},
-         {"p1": "b.iso", "p2": "a.iso", "p3": "B.iso", "p4": "a/a.iso", "p5": "a.iso.2", "p6": "_.iso", "p8": "p8", "p9": "c.iso", "p10": "latest/b.iso", "p11": "C.iso"}]
+         {"p1": "b.iso", "p2": "a.iso", "p3": "B.iso", "p4": "a/a.iso", "p5": "a.iso.2", "p6": "_.iso", "p8": "p8", "p9": "c.iso", "p10": "latest/b.iso", "p11": "C.iso"},
+         # legal spellings that are not in normal form: a path is stored and written as the producer spelled it
+         {"p1": "./Server/x86_64/iso/z.iso", "p2": "Server//x86_64/iso/a.iso", "p3": "unified/x/../m.iso", "p4": "Client/./b.iso", "p5": "Server/x86_64/iso/a.iso",
+          "p6": "0/first.iso/", "p8": "x/p8.iso", "p9": "Server/x86_64//iso/a.iso", "p10": "./Server//x86_64/iso/z.iso", "p11": "unified/m.iso"}]
 VARS = [{"V1": "Server", "V2": "Client", "V-3": "Server-optional"}, {"V1": "b", "V2": "a", "V-3": "a-b"}]
 AV = {"none": [], "one": ["Client"], "two": ["Workstation", "Client"]}
 COMPOSES = [dict(label=None, final=False, ctype="production", respin=0), dict(label="RC-2.1", final=True, ctype="nightly", respin=3),
@@ -23,7 +26,7 @@ class Conc(object):
         from . import enums as C
         IM = C
         self.rot = rot
-        self.paths = PATHS[rot % 2]
+        self.paths = PATHS[rot % 3]
         self.vars = VARS[(rot // 2) % 2]
         bins = [a for a in C.RPM_ARCHES if a not in ("src", "nosrc")]
         self.arch = {"a1": bins[(rot * 2) % len(bins)], "a2": bins[(rot * 2 + 1) % len(bins)]}
@@ -47,7 +50,7 @@ class Conc(object):
         if self.rot % 2:
             fmts = self.allfmt          # type and format are two enumerations: the usual pairing is a default, not a rule
         return {"path": self.paths[spec.get("pathof", n)], "mtime": 1432300000 + j, "size": 1234 + j if spec["size"] == "small" else (1 << (33 if self.rot % 3 else 62)) + j,
-                "volume_id": None if spec["volume_id"] == "null" else "Vol %s-22" % n, "type": t, "format": fmts[(self.rot + j) % len(fmts)],
+                "volume_id": None if spec["volume_id"] == "null" else "Vol %s-22" % n + ("  " if (self.rot + j) % 3 == 0 else ""), "type": t, "format": fmts[(self.rot + j) % len(fmts)],
                 "arch": [self.arch["a1"], self.arch["a2"], "src"][j % 3], "disc_number": spec["disc_number"], "disc_count": spec.get("disc_count", 3),
                 "checksums": {"sha256": "%x" % j * 64} if spec["checksums"] == "one" else {"md5": "%x" % j * 32, "sha256": "%x" % (j + 6) * 64},
                 "implant_md5": None if spec["implant_md5"] == "null" else ("0123456789abcdef" * 2)[j:] + "f" * j,
@@ -171,6 +174,36 @@ def evaluate(case):
         fails += core.file_cycle(m, text, what, "images.json", reload=reload)
     if not fails and case.get("valid", True):
         fails += core.dict_cycle(m, text, what)
+    if not fails and case.get("valid", True) and conc.rot % 2 == 0:
+        # written to a path, edited so that the text keeps its LENGTH (time stamp and digest of the same width), written to the
+        # same path again: the file holds the new manifest
+        import os
+        import shutil
+        import tempfile
+        d = tempfile.mkdtemp(prefix="verif-c02-")
+        try:
+            pth = os.path.join(d, "images.json")
+            m.dump(pth)
+            img0 = None
+            for v in sorted(m.images):
+                for a in sorted(m.images[v]):
+                    for i0 in sorted(m.images[v][a], key=lambda i: i.path):
+                        img0 = img0 or i0
+            if img0 is not None:
+                keep0 = (img0.mtime, dict(img0.checksums))
+                img0.mtime += 777
+                img0.checksums = {k: ("e" if val[0] != "e" else "d") * len(val) for k, val in img0.checksums.items()}
+                try:
+                    now = m.dumps()
+                    m.dump(pth)
+                    on_disk = open(pth).read()
+                    if len(now) == len(text) and on_disk != now:
+                        fails.append("%s: written to a path, then time stamp and digests edited (same width) and written to the same path "
+                                     "again: the file still holds %s" % (what, "the first manifest" if on_disk == text else "something else"))
+                finally:
+                    img0.mtime, img0.checksums = keep0[0], keep0[1]
+        finally:
+            shutil.rmtree(d, ignore_errors=True)
     if not fails and case.get("valid", True):
         # an image of the re-read manifest is promoted in place (unified, one more variant); the unchanged file read afterwards
         # by another object is what it was
